@@ -105,11 +105,14 @@ func tablesDumpCmd(args []string) int {
 		arches = append(arches, a)
 	}
 	sort.Strings(arches)
+	scSnapshot := map[string]map[int]string{}
 	for _, a := range arches {
+		scSnapshot[a] = map[int]string{}
 		for num, name := range auparse.AuditSyscalls[a] {
 			trace++
 			w.write(map[string]interface{}{"k": "syscall", "trace": trace, "arch": a, "num": num, "name": name})
 			stats["syscall_entries"]++
+			scSnapshot[a][num] = name
 		}
 	}
 
@@ -385,6 +388,35 @@ func tablesDumpCmd(args []string) int {
 			trace++
 			w.write(map[string]interface{}{"k": "select", "trace": trace, "what": c.what, "order": oi, "want": c.want, "got": got})
 			stats["selections"]++
+		}
+	}
+	// ---- the tables after the parser has been at work -----------------------------------------------------
+	// records with system call numbers of every kind (in the table, beside it, with the x32 and other high bits
+	// set, negative) for every architecture code; whatever the tables hold afterwards that they did not hold
+	// before is one more entry for the same clauses
+	archHex := []string{"c000003e", "40000003", "c00000b7", "40000028", "80000016", "c0000015", "00000014", "80000015", "ffffffff"}
+	for _, ah := range archHex {
+		for _, base := range []int{0, 1, 2, 59, 257, 322, 435, 511, 1023} {
+			for _, num := range []int{base, base | 0x40000000, base | 0x20000000, -base - 1, base + 0x10000} {
+				for _, rt := range []auparse.AuditMessageType{auparse.AUDIT_SYSCALL, auparse.AUDIT_SECCOMP} {
+					func() {
+						defer func() { recover() }()
+						if m, err := auparse.Parse(rt, fmt.Sprintf(`audit(1490137971.011:7): arch=%s syscall=%d success=yes exit=0 sig=0 a0=1 items=0 pid=2 uid=0 comm="x" exe="/bin/x" code=0x0`, ah, num)); err == nil {
+							m.Data()
+							m.ToMapStr()
+						}
+					}()
+				}
+			}
+		}
+	}
+	for a, tbl := range auparse.AuditSyscalls {
+		for num, name := range tbl {
+			if old, ok := scSnapshot[a][num]; !ok || old != name {
+				trace++
+				w.write(map[string]interface{}{"k": "syscall", "trace": trace, "arch": a, "num": num, "name": name, "late": true})
+				stats["syscall_entries_added_at_run_time"]++
+			}
 		}
 	}
 	w.write(map[string]interface{}{"k": "end"})
